@@ -159,6 +159,72 @@ fn soup_case(ch: &mut Choices<'_>, st: &mut Stats) -> CaseResult {
     check_input(scheme(), &s, st, "token-soup")
 }
 
+/// Body of a quoted literal assembled from escapes, multi-byte characters and
+/// bytes that make the decoded text invalid UTF-8 (offsets into the source and
+/// into the decoded text differ after every escape).
+fn string_body(ch: &mut Choices<'_>) -> String {
+    let n = ch.draw(9);
+    let mut s = String::new();
+    for _ in 0..n {
+        match ch.weighted(&[4, 2, 2, 3, 2, 4, 1, 1]) {
+            0 => s.push((b'a' + ch.draw(26) as u8) as char),
+            1 => s.push_str("\\\""),
+            2 => s.push_str("\\\\"),
+            3 => s.push_str(&format!("\\x{:02x}", *ch.pick(&[0x41u8, 0x00, 0x7f, 0x80, 0xbf, 0xc3, 0xe2, 0xf0, 0xff, 0x22, 0x5c]))),
+            4 => s.push_str(*ch.pick(&["\\101", "\\377", "\\000", "\\200", "\\400", "\\777"])),
+            5 => s.push(*ch.pick(MULTI)),
+            6 => s.push_str(*ch.pick(&["\\q", "\\x4", "\\8", "\\x", "\\", "\\xZZ", "\\18"])),
+            _ => s.push(*ch.pick(&['"', '\n', '*', '#', '[', '(', '?'])),
+        }
+    }
+    s
+}
+
+const STRING_SLOTS: &[(&str, &str)] = &[
+    ("map_s[", "] == \"x\""),
+    ("map_n[", "] in {1 2}"),
+    ("amn[0][", "] == 1"),
+    ("any(map_b[", "])"),
+    ("s == ", ""),
+    ("s != ", " or t"),
+    ("s in {", " \"z\"}"),
+    ("s in {\"a\" ", "}"),
+    ("s contains ", ""),
+    ("s matches ", ""),
+    ("s ~ ", ""),
+    ("s wildcard ", ""),
+    ("s strict wildcard ", ""),
+    ("arr_s[*] == ", ""),
+    ("concat(s, ", ") == \"x\""),
+    ("opt2(s, 1, ", ") == \"x\""),
+    ("lower(", ") == \"x\""),
+    ("not (s == ", ")"),
+    ("map_s[", "]"),
+    ("concat(map_s[", "], \"x\")"),
+];
+
+fn strings_case(ch: &mut Choices<'_>, st: &mut Stats) -> CaseResult {
+    let (pre, post) = *ch.pick(STRING_SLOTS);
+    let body = string_body(ch);
+    let lit = match ch.weighted(&[8, 2, 1, 1]) {
+        0 => format!("\"{body}\""),
+        1 => {
+            let h = "#".repeat(ch.draw(3));
+            format!("r{h}\"{body}\"{h}")
+        }
+        2 => format!("\"{body}"),
+        _ => format!("r#\"{body}\""),
+    };
+    let lead = *ch.pick(&["", "", " ", "\n", "é or ", "t and\n"]);
+    let input = format!("{lead}{pre}{lit}{post}");
+    if body.contains("\\x") || body.contains("\\3") || body.contains("\\2") {
+        if body.chars().any(|c| c.len_utf8() > 1) {
+            st.class("literal-with-escape-and-multibyte-char");
+        }
+    }
+    check_input(scheme(), &input, st, "string-literals")
+}
+
 pub fn mutate_text(ch: &mut Choices<'_>, text: &str) -> String {
     let mut chars: Vec<char> = text.chars().collect();
     let edits = ch.range(1, 4);
@@ -428,6 +494,7 @@ pub fn subs() -> Vec<Sub> {
     vec![
         Sub { name: "unicode", f: Box::new(unicode_case) },
         Sub { name: "soup", f: Box::new(soup_case) },
+        Sub { name: "strings", f: Box::new(strings_case) },
         Sub { name: "mutated", f: Box::new(mutated_case) },
         Sub { name: "stress", f: Box::new(stress_case) },
     ]
@@ -435,7 +502,7 @@ pub fn subs() -> Vec<Sub> {
 
 pub fn run(run: &Run) {
     run.rule(
-        "unicode: random strings over ASCII / language punctuation / whitespace incl. tab and CR / multi-byte and arbitrary code points; soup: 1-30 tokens from the language's alphabet (identifiers, operators and aliases, literal fragments, brackets, quote/raw-string/escape fragments, multi-byte chars); mutated: valid filters printed from the full generator with 1-4 edits (insert/delete/duplicate/transpose/truncate/replace-with-multibyte/insert-token/drop-prefix); stress: 1e5-operand chains and 1e5-deep nestings (and their truncations) parsed in a child process on an 8 MiB-stack thread; each input goes through Scheme::parse and Scheme::parse_value; \
+        "unicode: random strings over ASCII / language punctuation / whitespace incl. tab and CR / multi-byte and arbitrary code points; soup: 1-30 tokens from the language's alphabet (identifiers, operators and aliases, literal fragments, brackets, quote/raw-string/escape fragments, multi-byte chars); strings: a quoted / raw / unterminated literal assembled from letters, \\\" \\\\ \\xHH \\OOO escapes (valid and invalid, bytes >= 0x80), multi-byte characters and stray quotes, placed as map key, comparison / set / regex / wildcard right-hand side or function argument; mutated: valid filters printed from the full generator with 1-4 edits (insert/delete/duplicate/transpose/truncate/replace-with-multibyte/insert-token/drop-prefix); stress: 1e5-operand chains and 1e5-deep nestings (and their truncations) parsed in a child process on an 8 MiB-stack thread; each input goes through Scheme::parse and Scheme::parse_value; \
          non-trivial = the input is accepted, or rejected with an error column > 1 (not at its first token); distinct by (entry point, input)",
     );
     run.assume("an abnormal child exit is a violation; a child that exceeds the watchdog is inconclusive");
@@ -446,6 +513,7 @@ pub fn run(run: &Run) {
     let n = run.tier.pick(150_000, 3_000_000);
     run.random("unicode", n, 80, &*find_sub(&subs, "unicode").unwrap().f);
     run.random("soup", n, 80, &*find_sub(&subs, "soup").unwrap().f);
+    run.random("strings", n, 60, &*find_sub(&subs, "strings").unwrap().f);
     let n = run.tier.pick(200_000, 4_000_000);
     run.random("mutated", n, 300, &*find_sub(&subs, "mutated").unwrap().f);
     let _ = g::INT_POOL;
